@@ -4,14 +4,22 @@
    A history is a list of items; an item is the list of abstract actions one
    observed event amounts to, followed by what some nodes look like afterwards.
    [run_hist V0 h] replays the actions with the boolean guards of Abs/CfgRun.v
-   (reconfiguration guard (b) in force) and compares the observations. *)
+   (reconfiguration guard (b) in force) and compares the observations.
+
+   Durable prefix: a real node may flush more than the abstract one has to (it
+   also flushes when a log segment fills up), never less.  After the actions of
+   an item, every observed node whose abstract [flushed] is below the observed
+   one (and the observed one is within the abstract log) takes an implicit
+   [do_flush] up to the observed value (an always-enabled SFlush step); then the
+   observed and the abstract durable prefix must be equal (code 5). *)
 From Coq Require Import List NArith Arith Lia Bool.
 From Verif Require Import Abs.Quorum Abs.RaftBase Abs.CfgQuorum Abs.CfgBase Abs.CfgRaft
   Abs.CfgRun.
 Import ListNotations.
 Open Scope N_scope.
 
-Record obs := mkO { o_cur : N; o_role : Role; o_log : list entry; o_commit : nat }.
+Record obs := mkO { o_cur : N; o_role : Role; o_log : list entry; o_flushed : nat;
+                    o_commit : nat }.
 Definition item := (list action * list (N * obs))%type.
 Inductive hres := HOk (s : state) | HFail (k : nat) (code : nat).
 
@@ -31,14 +39,16 @@ Lemma role_okb_cand ro ra : role_okb ro ra = true -> ro = Candidate -> ra = Cand
 Proof. intros H E. subst ro. apply is_cand_ok. exact H. Qed.
 
 (* 0 = the node agrees with the observation; 1 term, 2 log, 3 commit index
-   (the observed one may lag, never lead), 4 role *)
+   (the observed one may lag, never lead), 4 role, 5 durable prefix *)
 Definition obs_okb (s : state) (p : N * obs) : nat :=
   let x := st s (fst p) in
   let o := snd p in
   if negb (cur x =? o_cur o) then 1%nat
   else if log_eq_dec (log x) (o_log o) then
     if (o_commit o <=? commit x)%nat then
-      if role_okb (o_role o) (role x) then 0%nat else 4%nat
+      if role_okb (o_role o) (role x) then
+        if (flushed x =? o_flushed o)%nat then 0%nat else 5%nat
+      else 4%nat
     else 3%nat
   else 2%nat.
 
@@ -46,13 +56,15 @@ Lemma obs_okb_ok s n o : obs_okb s (n, o) = 0%nat ->
   cur (st s n) = o_cur o /\ log (st s n) = o_log o /\
   (o_commit o <= commit (st s n))%nat /\
   (o_role o = Leader -> role (st s n) = Leader) /\
-  (o_role o = Candidate -> role (st s n) = Candidate).
+  (o_role o = Candidate -> role (st s n) = Candidate) /\
+  flushed (st s n) = o_flushed o.
 Proof.
   unfold obs_okb. simpl.
   destruct (N.eqb_spec (cur (st s n)) (o_cur o)) as [E1|]; simpl; [|discriminate].
   destruct (log_eq_dec (log (st s n)) (o_log o)) as [E2|]; [|discriminate].
   destruct (Nat.leb_spec (o_commit o) (commit (st s n))) as [E3|]; [|discriminate].
   destruct (role_okb (o_role o) (role (st s n))) eqn:E4; [|discriminate].
+  destruct (Nat.eqb_spec (flushed (st s n)) (o_flushed o)) as [E5|]; [|discriminate].
   intros _. repeat split; try assumption.
   - apply role_okb_leader. exact E4.
   - apply role_okb_cand. exact E4.
@@ -97,10 +109,32 @@ Proof.
     apply (IH _ _ _ (GR_step V0 true s _ Hs (guardb_sound V0 true a s G)) H).
 Qed.
 
+(* implicit flushes: the abstract nodes catch up with the observed durable prefixes *)
+Fixpoint catch_up (os : list (N * obs)) (s : state) : state :=
+  match os with
+  | [] => s
+  | p :: r =>
+      let n := fst p in
+      let k := o_flushed (snd p) in
+      if (flushed (st s n) <? k)%nat && (k <=? length (log (st s n)))%nat
+      then catch_up r (do_flush n k s) else catch_up r s
+  end.
+
+Lemma catch_up_sound os : forall s, Reachable V0 s -> Reachable V0 (catch_up os s).
+Proof.
+  induction os as [|p r IH]; simpl; intros s Hs; [exact Hs|].
+  destruct ((flushed (st s (fst p)) <? o_flushed (snd p))%nat &&
+            (o_flushed (snd p) <=? length (log (st s (fst p))))%nat) eqn:E; [|exact (IH s Hs)].
+  apply IH. apply (GR_step V0 true s _ Hs). apply SFlush.
+  apply andb_true_iff in E. destruct E as [E1 E2].
+  apply Nat.ltb_lt in E1. apply Nat.leb_le in E2. lia.
+Qed.
+
 Definition run_item (s : state) (it : item) : state + nat :=
   match run_acts (fst it) s 0 with
   | inr c => inr c
-  | inl s' =>
+  | inl s1 =>
+      let s' := catch_up (snd it) s1 in
       match check_obs s' (snd it) 0 with
       | O => inl s'
       | c => inr c
@@ -113,9 +147,10 @@ Lemma run_item_sound s it s' :
 Proof.
   unfold run_item. intros Hs H.
   destruct (run_acts (fst it) s 0) as [s1|c] eqn:E; [|discriminate].
-  destruct (check_obs s1 (snd it) 0) as [|c] eqn:C; [|discriminate].
-  inversion H. subst s1. split.
-  - exact (run_acts_sound _ _ _ _ Hs E).
+  cbv zeta in H.
+  destruct (check_obs (catch_up (snd it) s1) (snd it) 0) as [|c] eqn:C; [|discriminate].
+  inversion H. subst s'. split.
+  - apply catch_up_sound. exact (run_acts_sound _ _ _ _ Hs E).
   - exact (check_obs_ok _ _ _ C).
 Qed.
 
